@@ -883,11 +883,14 @@ def c13(v):
         x = v.exit(s)
         if began and x is not None and x[KIND] != 'run_end'                 or not began:
             trig = True
-        # the scheduler by whose end the jobs of s must have been told
+        # the scheduler by whose end the jobs of s must have been told: s
+        # itself when its run came to its own end; for a scheduler that never
+        # started or was cancelled from outside, the nearest enclosing
+        # scheduler whose run came to its own end
         anc = s
         while anc is not None:
             ax = v.exit(anc) if v.evs('run_begin', anc) else None
-            if ax is not None:
+            if ax is not None and ax[KIND] != 'run_cancel':
                 break
             anc = v.parent[anc]
         limit = v.exit(anc) if anc is not None else None
